@@ -67,7 +67,63 @@ class Unit:
         return self.files[rel]
 
     # ---------------------------------------------------------------------------------------
+    def rewrite_assert_macros(self, text):
+        """R7 (built in): assert!/debug_assert!/assert_eq!/assert_ne! lose their message arguments
+        and the _eq/_ne forms are spelled with == / != (Verus has no spec for the fmt machinery)."""
+        out = []
+        i = 0
+        m = mask(text)
+        rx = re.compile(r'(?<![\w])(debug_assert|assert)(_eq|_ne)?!\s*\(')
+        while True:
+            mt = rx.search(m, i)
+            if not mt:
+                out.append(text[i:])
+                break
+            out.append(text[i:mt.start()])
+            # find matching paren
+            depth = 0
+            k = mt.end() - 1
+            start = k
+            while k < len(m):
+                if m[k] in '([{':
+                    depth += 1
+                elif m[k] in ')]}':
+                    depth -= 1
+                    if depth == 0:
+                        break
+                k += 1
+            inner = text[start + 1:k]
+            inner_m = m[start + 1:k]
+            args = []
+            d = 0
+            cur = 0
+            for j, ch in enumerate(inner_m):
+                if ch in '([{':
+                    d += 1
+                elif ch in ')]}':
+                    d -= 1
+                elif ch == ',' and d == 0:
+                    args.append(inner[cur:j])
+                    cur = j + 1
+            args.append(inner[cur:])
+            args = [a for a in args if a.strip()]
+            kind = mt.group(2)
+            nl = inner.count('\n')
+            if kind:
+                cond = '%s %s %s' % (args[0].strip(), '==' if kind == '_eq' else '!=', args[1].strip())
+                changed = True
+            else:
+                cond = args[0].strip()
+                changed = len(args) > 1
+            if changed:
+                self.rewrite_counts['R7'] = self.rewrite_counts.get('R7', 0) + 1
+            cond = ' '.join(cond.split())
+            out.append('%s!(%s)%s' % (mt.group(1), cond, '\n' * nl))
+            i = k + 1
+        return ''.join(out)
+
     def apply_rewrites(self, text):
+        text = self.rewrite_assert_macros(text)
         # R11 (built in): fold `<lit>_<uN>.pow(<lit>)` integer-literal powers to a literal
         def fold(mt):
             self.rewrite_counts['R11'] = self.rewrite_counts.get('R11', 0) + 1
@@ -78,7 +134,12 @@ class Unit:
                 new = mt.expand(repl)
                 d = mt.group(0).count('\n') - new.count('\n')
                 if d < 0:
-                    raise WeaveError('rewrite %s adds newlines' % rid)
+                    # keep the line count: fold the surplus newlines of the replacement into spaces
+                    if '//' in new:
+                        raise WeaveError('rewrite %s adds newlines around a comment' % rid)
+                    parts = new.rsplit('\n', -d)
+                    new = ' '.join(parts)
+                    d = 0
                 self.rewrite_counts[rid] = self.rewrite_counts.get(rid, 0) + 1
                 return new + '\n' * d
             text = re.sub(rx, sub, text, flags=re.S)
